@@ -464,6 +464,13 @@ theorem keeper_exec_total {fee : Dec} {p : KPool} {x y pc : Int} (hp : KInv p) (
             · rename_i hgt; omega
             · exact ⟨_, rfl⟩
 
+/-- … in particular on every BASIC pool (its `AMMPool` constructor cannot fail). -/
+theorem keeper_exec_total_basic {fee : Dec} {p : KPool} {x y pc : Int} (hb : p.ranged = false) (hp : KInv p)
+    (hx : 0 ≤ x) (hy : 0 ≤ y) (hpc : 0 ≤ pc) (hle : pc ≤ p.ps) (hf0 : 0 ≤ fee) (hf1 : fee ≤ Dec.one) :
+    (∃ o, execDeposit p x y = some o) ∧ (∃ o, execWithdraw fee p pc = some o) := by
+  obtain ⟨b, e⟩ := isDepleted_basic_some hb
+  exact keeper_exec_total hp hx hy hpc hle hf0 hf1 (by rw [e]; simp)
+
 /-! ### Any sequence of executed requests on one pool -/
 
 /-- the side conditions of one operation on the pool as it is then: offers / donations are non-negative, the pool
@@ -989,6 +996,14 @@ theorem rederive_moves_endpoint_counterexample :
       ¬ PriceInRange 3200000000000000000 3203200000000000000 3199999999999999999 := by
   set_option exponentiation.threshold 512 in
   refine ⟨_, rfl, ?_, ?_, ?_, ?_⟩ <;> decide
+
+/-- non-vacuity of `ranged_price_monotone_fixed_translation`: the pool bought base coin (quote 1 000 000 → 500 000, base
+300 000 → 456 000), its price fell from 3.201631… to 3.200816… -/
+example : (match newRangedPool 1000000 300000 1 3200000000000000000 3203200000000000000 with
+    | .ok p => decide (priceOf (setBalances p 1000000 300000 false) = some 3201631849758840253) &&
+        decide (priceOf (setBalances p 500000 456000 false) = some 3200816369783903229)
+    | _ => false) = true := by
+  set_option exponentiation.threshold 512 in decide
 
 /-- non-vacuity: the fixed-translation theorems apply to that pool (translation positive), and the bounds of
 `ranged_price_within_endpoints_fixed_translation` for the box [0, 1960724] × [0, 612420] are its two end-point prices -/
